@@ -85,8 +85,7 @@ Section GenLabelsP.
   Variable L : Type.
   Variable leqb : L -> L -> bool.
 
-  Definition relabel (f : L -> nat) (g : list (L * list nat)) : list (nat * list nat) :=
-    map (fun lq => (f (fst lq), snd lq)) g.
+  Notation relabel := (relabel L).
 
   Lemma add_to_group_g_keys l i g k :
     In k (map fst (add_to_group_g leqb l i g)) -> k = l \/ In k (map fst g).
@@ -252,3 +251,93 @@ Lemma decompose_call_cover aslist n labels ps D :
 Proof.
   intros L H. apply covered_exactly_once. now destruct (decompose_call_recombine _ _ _ _ _ L H).
 Qed.
+
+(* ------------------------------------------------------------------------------------------
+   Correction round (proof audit).
+   ------------------------------------------------------------------------------------------ *)
+
+Lemma fold_scatter_length (gs : list (list nat * pauli)) acc :
+  length (fold_left (fun a g => scatter (fst g) (plets (snd g)) a) gs acc) = length acc.
+Proof.
+  revert acc; induction gs as [|g r IH]; intros acc; simpl; [reflexivity|]. now rewrite IH, scatter_length.
+Qed.
+
+(* recombination over ANY family of index blocks that covers exactly 0..n-1: blocks in any order, indices in any
+   order inside a block (even overlapping blocks: a letter scattered twice is the same letter) *)
+Lemma recombine_any_partition n p gs :
+  length (plets p) = n -> (forall q, In q (concat gs) <-> q < n) ->
+  recombine1 n (map (fun qs => (qs, restrict1 qs p)) gs) = plets p.
+Proof.
+  intros L C. unfold recombine1.
+  replace (map (fun qs => (qs, restrict1 qs p)) gs)
+    with (map (fun qs => (qs, restrict1 qs (mkP 0 (plets p)))) gs) by (apply map_ext; reflexivity).
+  apply nth_ext with (d := 0) (d' := 0).
+  - rewrite fold_scatter_length, repeat_length. now symmetry.
+  - intros j Hj. rewrite fold_scatter_length, repeat_length in Hj.
+    rewrite recombine_fold.
+    + assert (E : existsb (fun g => if in_dec Nat.eq_dec j g then true else false) gs = true).
+      { apply existsb_exists. apply C in Hj. apply in_concat in Hj as [g [Hg Hq]].
+        exists g; split; [assumption|]. destruct (in_dec Nat.eq_dec j g); [reflexivity|contradiction]. }
+      now rewrite E.
+    + intros g q Hg Hq. rewrite repeat_length. apply C. apply in_concat. exists g; auto.
+Qed.
+
+(* well-formed input: every row has the width n the call is about (PauliList invariant) *)
+Lemma restrict_full_wf n qs ps :
+  (forall p, In p ps -> length (plets p) = n) -> (forall q, In q qs -> q < n) ->
+  exists out, restrict n qs ps = Ok out /\ length out = length ps /\
+    forall i, i < length ps ->
+      pphase (nth i out pI) = 0 /\
+      length (plets (nth i out pI)) = length qs /\
+      forall k, k < length qs ->
+        nth k (plets (nth i out pI)) 0 = nth (nth k qs 0) (plets (nth i ps pI)) 0 /\
+        nth_error (plets (nth i out pI)) k = nth_error (plets (nth i ps pI)) (nth k qs 0).
+Proof.
+  intros W H. destruct (restrict_full n qs ps H) as [out [E [L F]]].
+  exists out. split; [assumption|]. split; [assumption|].
+  intros i Hi. destruct (F i Hi) as [A [B C]]. split; [assumption|]. split; [assumption|].
+  intros k Hk. split; [now apply C|].
+  assert (Hq : nth k qs 0 < length (plets (nth i ps pI))).
+  { rewrite (W (nth i ps pI)) by (apply nth_In; assumption). apply H. now apply nth_In. }
+  assert (Hk' : k < length (plets (nth i out pI))) by (rewrite B; assumption).
+  rewrite (nth_error_nth' (plets (nth i out pI)) (0 : letter) Hk'), (nth_error_nth' (plets (nth i ps pI)) (0 : letter) Hq). f_equal. now apply C.
+Qed.
+
+Lemma expand_full_hoisted nobs oq fq ps :
+  NoDup oq -> NoDup fq -> incl oq fq -> nobs = length oq ->
+  (forall p, In p ps -> length (plets p) = nobs) ->
+  exists out, expand nobs oq fq ps = Ok out /\ length out = length ps /\
+    forall i, i < length ps ->
+      let p := nth i ps pI in let r := nth i out pI in
+      pphase r = pphase p /\ length (plets r) = length fq /\
+      (forall k j, k < length oq -> j < length fq -> nth j fq 0 = nth k oq 0 ->
+          nth j (plets r) 0 = nth k (plets p) 0) /\
+      (forall j, ~ In (nth j fq 0) oq -> j < length fq -> nth j (plets r) 0 = 0).
+Proof.
+  intros ND NDf I E HL. destruct (expand_full nobs oq fq ps ND I E HL) as [out [A [B C]]].
+  exists out. split; [assumption|]. split; [assumption|].
+  intros i Hi. destruct (C i Hi) as [C1 [C2 [C3 C4]]]. cbv zeta.
+  split; [assumption|]. split; [assumption|]. split; [|assumption].
+  intros k j Hk Hj Ej. now apply C3.
+Qed.
+
+Lemma expand_outcome_wf nobs oq fq ps :
+  (forall p, In p ps -> length (plets p) = nobs) ->
+  ((exists out, expand nobs oq fq ps = Ok out) <-> nobs = length oq /\ incl oq fq) /\
+  (expand nobs oq fq ps = Refused <-> ~ (nobs = length oq /\ incl oq fq)) /\
+  expand nobs oq fq ps <> Crashed.
+Proof.
+  intros _. split; [apply expand_ok_iff|]. split; [|apply expand_never_crashes].
+  rewrite expand_refused_iff, <- expand_refusal_none. reflexivity.
+Qed.
+
+Lemma restrict_seq_ok_wf aslist n qs ps :
+  (forall p, In p ps -> length (plets p) = n) -> (forall q, In q qs -> q < n) ->
+  restrict_seq aslist n qs ps = Ok (map (restrict1 qs) ps).
+Proof. intros _. apply restrict_seq_ok. Qed.
+
+Lemma restrict_out_of_range_wf aslist n qs ps :
+  (forall p, In p ps -> length (plets p) = n) -> (exists q, In q qs /\ n <= q) ->
+  (aslist = false \/ ps <> [] -> restrict_seq aslist n qs ps = Crashed) /\
+  restrict_seq true n qs [] = Ok [].
+Proof. intros _ H. split; [now apply restrict_seq_crash|reflexivity]. Qed.
